@@ -146,14 +146,15 @@ def definitions():
 
 
 class _NoTables(tuple):
-    """what the (private) table helper hands to checkEquation in this world: nothing - whether the caller spreads it with * or **"""
+    """what the (private) table helper hands to checkEquation in this world: an empty variable list and an empty table of derived
+    parameters - as the pair the package has always used (unpacking, `*`), and as nothing at all when spread with `**`"""
     _abs_native = True
+
+    def __new__(cls):
+        return tuple.__new__(cls, ([], {}))
 
     def keys(self):
         return []
-
-    def __getitem__(self, k):
-        raise KeyError(k)
 
 
 class SymMat(SymArr):
